@@ -407,4 +407,259 @@ theorem block_ok (p : Char → Bool) (sc : Scope) (g : VIn) (hl : LocalsOk sc g)
     refine ⟨a2.filter a3.contains, ?_, mem_meet a2 a3 asg (fun n hn => s2 n (s1 n hn)) hsub3, inv_filter _ _ i2⟩
     simp only [checkL2, S2.check, re, if_true, hbody, ah, hh, Flow.meet]
 
+
+/-! ### head, the statements behind the block, the constructor call -/
+
+theorem s2_line_ok (sc : Scope) (ps : List Part) (asg : List S) (hi : Inv sc asg) (h : PartsOk sc asg ps) :
+    ∃ a, checkL2 sc asg [.s1 (.s0 (.line ps))] = some (some a) ∧ (∀ n ∈ asg, n ∈ a) ∧ (∀ q ∈ ps, ∀ n ∈ q.writes, n ∈ a) ∧ Inv sc a := by
+  obtain ⟨a, c, h1, h2, h3⟩ := line_ok sc ps asg hi h
+  exact ⟨a, by simp only [checkL2, S2.check, S1.check, c], h1, h2, h3⟩
+
+theorem mem_outer_pre (g : VIn) (h : g.preFromDict = true) : t "__pre_from_dict__" ∈ skeletonOuter g := by
+  simp only [skeletonOuter, List.mem_append]
+  exact Or.inl (Or.inl (Or.inl (Or.inr (by simp [h]))))
+
+theorem head_ok (sc : Scope) (g : VIn) (hl : LocalsOk sc g) (ho : OuterOk sc g) (asg : List S) (hi : Inv sc asg) (hao : t "o" ∈ asg) :
+    ∃ a, checkL2 sc asg (headStmts g) = some (some a) ∧ (∀ n ∈ asg, n ∈ a) ∧ Inv sc a ∧
+      (g.hasDefaults = true → t "init_kwargs" ∈ a) ∧ (g.preAssign = true → t "i" ∈ a) := by
+  unfold headStmts
+  -- 1
+  have h1 : ∃ a1, checkL2 sc asg (if g.preFromDict then [.s1 (.s0 (.line [prePart]))] else []) = some (some a1) ∧
+      (∀ n ∈ asg, n ∈ a1) ∧ Inv sc a1 := by
+    cases hp : g.preFromDict
+    · exact ⟨asg, rfl, fun _ h => h, hi⟩
+    · obtain ⟨a, c, s1, _, i1⟩ := s2_line_ok sc [prePart] asg hi ⟨by
+        intro n hn
+        simp only [prePart, List.mem_cons, List.not_mem_nil, or_false] at hn
+        rcases hn with h | h
+        · rw [h]; exact outer_rd ho _ _ (mem_outer_pre g hp)
+        · rw [h]; exact Rd.local hi hao, by simp [prePart, hl.o], trivial⟩
+      exact ⟨a, by simpa using c, s1, i1⟩
+  obtain ⟨a1, c1, s1, i1⟩ := h1
+  have h2 : ∃ a2, checkL2 sc a1 (if g.hasDefaults then [.s1 (.s0 (.line [kwPart]))] else []) = some (some a2) ∧
+      (∀ n ∈ a1, n ∈ a2) ∧ Inv sc a2 ∧ (g.hasDefaults = true → t "init_kwargs" ∈ a2) := by
+    cases hd : g.hasDefaults
+    · exact ⟨a1, rfl, fun _ h => h, i1, by simp⟩
+    · obtain ⟨a, c, s, w, i⟩ := s2_line_ok sc [kwPart] a1 i1 ⟨by simp [kwPart], by simp [kwPart, hl.kw hd], trivial⟩
+      exact ⟨a, by simpa using c, s, i, fun _ => w kwPart (by simp) _ (by simp [kwPart])⟩
+  obtain ⟨a2, c2, s2, i2, k2⟩ := h2
+  have h3 : ∃ a3, checkL2 sc a2 (if g.preAssign then [.s1 (.s0 (.line [iPart]))] else []) = some (some a3) ∧
+      (∀ n ∈ a2, n ∈ a3) ∧ Inv sc a3 ∧ (g.preAssign = true → t "i" ∈ a3) := by
+    cases hd : g.preAssign
+    · exact ⟨a2, rfl, fun _ h => h, i2, by simp⟩
+    · obtain ⟨a, c, s, w, i⟩ := s2_line_ok sc [iPart] a2 i2 ⟨by simp [iPart], by simp [iPart, hl.i hd], trivial⟩
+      exact ⟨a, by simpa using c, s, i, fun _ => w iPart (by simp) _ (by simp [iPart])⟩
+  obtain ⟨a3, c3, s3, i3, k3⟩ := h3
+  refine ⟨a3, ?_, fun n hn => s3 n (s2 n (s1 n hn)), i3, fun h => s3 _ (k2 h), k3⟩
+  simp only [checkL2_append, c1, c2, c3]
+
+theorem mem_outer_count (g : VIn) (h : (g.hasCatchAll || g.unknown != .none) = true) (n : S) (hn : n ∈ [t "aliases", t "len"]) :
+    n ∈ skeletonOuter g := by
+  simp only [skeletonOuter, List.mem_append]
+  exact Or.inl (Or.inl (Or.inr (by simp only [h, if_true]; exact hn)))
+
+/-- an `if` whose body is a line and a statement that does not fall through -/
+theorem ifc_line_exit_ok (sc : Scope) (c tx : S) (cr rs : List S) (ps : List Part) (asg : List S) (hi : Inv sc asg)
+    (hc : ∀ n ∈ cr, Rd sc asg n) (h : PartsOk sc asg ps)
+    (hr : ∀ a, (∀ n ∈ asg, n ∈ a) → (∀ q ∈ ps, ∀ n ∈ q.writes, n ∈ a) → Inv sc a → ∀ n ∈ rs, Rd sc a n) :
+    S1.check sc asg (.ifc c cr [] [] [.line ps, .exit tx rs]) = some (some ([] ++ asg)) := by
+  obtain ⟨a1, h1, s1, w1, i1⟩ := line_ok sc ps ([] ++ asg) (by simpa using hi) (by simpa using h)
+  have hx : rds sc a1 rs = true := rds_of sc a1 rs (hr a1 (fun n hn => s1 n (by simpa using hn)) w1 i1)
+  simp only [S1.check, rds_of sc asg cr hc, if_true, checkL0, h1]
+  simp only [S0.check, hx, if_true, Flow.meet]
+
+/-- … two lines -/
+theorem ifc_two_lines_ok (sc : Scope) (c : S) (cr : List S) (ps qs : List Part) (asg : List S) (hi : Inv sc asg)
+    (hc : ∀ n ∈ cr, Rd sc asg n) (h : PartsOk sc asg ps)
+    (hq : ∀ a, (∀ n ∈ asg, n ∈ a) → (∀ q ∈ ps, ∀ n ∈ q.writes, n ∈ a) → Inv sc a → PartsOk sc a qs) :
+    ∃ a, S1.check sc asg (.ifc c cr [] [] [.line ps, .line qs]) = some (some a) ∧ (∀ n ∈ asg, n ∈ a) ∧ Inv sc a := by
+  obtain ⟨a1, h1, s1, w1, i1⟩ := line_ok sc ps ([] ++ asg) (by simpa using hi) (by simpa using h)
+  obtain ⟨a2, h2, s2, _, i2⟩ := line_ok sc qs a1 i1 (hq a1 (fun n hn => s1 n (by simpa using hn)) w1 i1)
+  refine ⟨a2.filter ([] ++ asg).contains, ?_, mem_meet a2 ([] ++ asg) asg (fun n hn => s2 n (s1 n (by simpa using hn))) (by simp),
+    inv_filter _ _ i2⟩
+  simp only [S1.check, rds_of sc asg cr hc, if_true, checkL0, h1, h2, Flow.meet]
+
+theorem after_ok (p : Char → Bool) (sc : Scope) (g : VIn) (hl : LocalsOk sc g) (ho : OuterOk sc g) (asg : List S) (hi : Inv sc asg)
+    (hao : t "o" ∈ asg) (hai : g.preAssign = true → t "i" ∈ asg) (hakw : g.hasDefaults = true → t "init_kwargs" ∈ asg) :
+    ∃ a, checkL2 sc asg (afterStmts p g) = some (some a) ∧ (∀ n ∈ asg, n ∈ a) ∧ Inv sc a := by
+  have oF : ∀ n, n ∈ [t "cls", t "fields", t "MISSING", t "re_raise", t "raise_missing_fields", t "locals", t "Exception"] →
+      ∀ x, Rd sc x n := fun n hn x => outer_rd ho x n (mem_outer_fixed g n hn)
+  unfold afterStmts
+  cases hca : g.catchAll with
+  | dflt n =>
+    have hpa : g.preAssign = true := by simp [VIn.preAssign, VIn.hasCatchAll, hca]
+    have hde : g.hasDefaults = true := by simp [VIn.hasDefaults, hca]
+    have hcnt : (g.hasCatchAll || g.unknown != .none) = true := by simp [VIn.hasCatchAll, hca]
+    have hcr : ∀ m ∈ countReads, Rd sc asg m := by
+      intro m hm
+      simp only [countReads, List.mem_cons, List.not_mem_nil, or_false] at hm
+      rcases hm with h | h | h
+      · rw [h]; exact outer_rd ho _ _ (mem_outer_count g hcnt _ (by simp))
+      · rw [h]; exact Rd.local hi hao
+      · rw [h]; exact Rd.local hi (hai hpa)
+    obtain ⟨a, c, s1, _, i1⟩ := ifc_line_ok sc countCond countReads [] [] [catchDfltPart p n] asg hi hcr (by simp) ⟨by
+      intro m hm
+      simp only [catchDfltPart, List.mem_cons, List.not_mem_nil, or_false] at hm
+      rcases hm with h | h | h | h
+      · rw [h]; exact Rd.local (by simpa using hi) (by simpa using hao)
+      · rw [h]; exact Rd.local (by simpa using hi) (by simpa using hao)
+      · rw [h]; exact outer_rd ho _ _ (mem_outer_count g hcnt _ (by simp))
+      · rw [h]; exact Rd.local (by simpa using hi) (by simpa using hakw hde), by simp [catchDfltPart], trivial⟩
+    exact ⟨a, by simp only [checkL2, S2.check, c], s1, i1⟩
+  | required n idx =>
+    have hpa : g.preAssign = true := by simp [VIn.preAssign, VIn.hasCatchAll, hca]
+    have hcnt : (g.hasCatchAll || g.unknown != .none) = true := by simp [VIn.hasCatchAll, hca]
+    obtain ⟨a, c, s1, _, i1⟩ := s2_line_ok sc [catchReqPart n] asg hi ⟨by
+      intro m hm
+      simp only [catchReqPart, List.mem_cons, List.not_mem_nil, or_false] at hm
+      rcases hm with h | h | h | h | h | h
+      · rw [h]; exact outer_rd ho _ _ (mem_outer_count g hcnt _ (by simp))
+      · rw [h]; exact Rd.local hi hao
+      · rw [h]; exact Rd.local hi (hai hpa)
+      · rw [h]; exact Rd.local hi hao
+      · rw [h]; exact Rd.local hi hao
+      · rw [h]; exact outer_rd ho _ _ (mem_outer_count g hcnt _ (by simp)), by simp [catchReqPart, hl.ca n idx hca], trivial⟩
+    exact ⟨a, c, s1, i1⟩
+  | none =>
+    cases hun : g.unknown with
+    | none => exact ⟨asg, rfl, fun _ h => h, hi⟩
+    | raise =>
+      have hpa : g.preAssign = true := by simp [VIn.preAssign, hun]
+      have hcnt : (g.hasCatchAll || g.unknown != .none) = true := by simp [hun]
+      have hek := hl.ek hca (by simp [hun])
+      have hcr : ∀ m ∈ countReads, Rd sc asg m := by
+        intro m hm
+        simp only [countReads, List.mem_cons, List.not_mem_nil, or_false] at hm
+        rcases hm with h | h | h
+        · rw [h]; exact outer_rd ho _ _ (mem_outer_count g hcnt _ (by simp))
+        · rw [h]; exact Rd.local hi hao
+        · rw [h]; exact Rd.local hi (hai hpa)
+      have hset : ∀ m ∈ [t "set", t "UnknownKeysError"], m ∈ skeletonOuter g := by
+        intro m hm
+        simp only [skeletonOuter, List.mem_append]
+        exact Or.inl (Or.inr (by simp only [hca, hun]; exact hm))
+      have c := ifc_line_exit_ok sc countCond (t "raise UnknownKeysError(extra_keys, o, cls, fields) from None") countReads
+        [t "UnknownKeysError", t "extra_keys", t "o", t "cls", t "fields"] [extraKeysPart] asg hi hcr ⟨by
+          intro m hm
+          simp only [extraKeysPart, List.mem_cons, List.not_mem_nil, or_false] at hm
+          rcases hm with h | h | h
+          · rw [h]; exact outer_rd ho _ _ (hset _ (by simp))
+          · rw [h]; exact Rd.local hi hao
+          · rw [h]; exact outer_rd ho _ _ (mem_outer_count g hcnt _ (by simp)), by simp [extraKeysPart, hek], trivial⟩
+        (by
+          intro a hs hw hia m hm
+          simp only [List.mem_cons, List.not_mem_nil, or_false] at hm
+          rcases hm with h | h | h | h | h
+          · rw [h]; exact outer_rd ho _ _ (hset _ (by simp))
+          · rw [h]; exact Rd.local hia (hw extraKeysPart (by simp) _ (by simp [extraKeysPart]))
+          · rw [h]; exact Rd.local hia (hs _ hao)
+          · rw [h]; exact oF _ (by simp) _
+          · rw [h]; exact oF _ (by simp) _)
+      refine ⟨[] ++ asg, ?_, by simp, by simpa using hi⟩
+      simp only [checkL2, S2.check, raiseUnknown, c]
+    | warn =>
+      have hpa : g.preAssign = true := by simp [VIn.preAssign, hun]
+      have hcnt : (g.hasCatchAll || g.unknown != .none) = true := by simp [hun]
+      have hek := hl.ek hca (by simp [hun])
+      have hcr : ∀ m ∈ countReads, Rd sc asg m := by
+        intro m hm
+        simp only [countReads, List.mem_cons, List.not_mem_nil, or_false] at hm
+        rcases hm with h | h | h
+        · rw [h]; exact outer_rd ho _ _ (mem_outer_count g hcnt _ (by simp))
+        · rw [h]; exact Rd.local hi hao
+        · rw [h]; exact Rd.local hi (hai hpa)
+      have hset : ∀ m ∈ [t "set", t "LOG"], m ∈ skeletonOuter g := by
+        intro m hm
+        simp only [skeletonOuter, List.mem_append]
+        exact Or.inl (Or.inr (by simp only [hca, hun]; exact hm))
+      obtain ⟨a, c, s1, i1⟩ := ifc_two_lines_ok sc countCond countReads [extraKeysPart] [warnPart] asg hi hcr ⟨by
+          intro m hm
+          simp only [extraKeysPart, List.mem_cons, List.not_mem_nil, or_false] at hm
+          rcases hm with h | h | h
+          · rw [h]; exact outer_rd ho _ _ (hset _ (by simp))
+          · rw [h]; exact Rd.local hi hao
+          · rw [h]; exact outer_rd ho _ _ (mem_outer_count g hcnt _ (by simp)), by simp [extraKeysPart, hek], trivial⟩
+        (by
+          intro a hs hw hia
+          refine ⟨?_, by simp [warnPart], trivial⟩
+          intro m hm
+          simp only [warnPart, List.mem_cons, List.not_mem_nil, or_false] at hm
+          rcases hm with h | h | h | h | h | h
+          · rw [h]; exact outer_rd ho _ _ (hset _ (by simp))
+          · rw [h]; exact outer_rd ho _ _ (mem_outer_count g hcnt _ (by simp))
+          · rw [h]; exact Rd.local hia (hw extraKeysPart (by simp) _ (by simp [extraKeysPart]))
+          · rw [h]; exact Rd.local hia (hw extraKeysPart (by simp) _ (by simp [extraKeysPart]))
+          · rw [h]; exact oF _ (by simp) _
+          · rw [h]; exact oF _ (by simp) _)
+      exact ⟨a, by simp only [checkL2, S2.check, c], s1, i1⟩
+
+theorem mem_insertAt (l : List S) (i : Nat) (x v : S) (h : v ∈ insertAt l i x) : v = x ∨ v ∈ l := by
+  simp only [insertAt, List.mem_append, List.mem_cons] at h
+  rcases h with h | h | h
+  · exact Or.inr (List.mem_of_mem_take h)
+  · exact Or.inl h
+  · exact Or.inr (List.mem_of_mem_drop h)
+
+/-- the variables handed to the constructor are locals of the function: reading one that is not bound is the UnboundLocalError the
+template catches -/
+theorem ctorVars_local (sc : Scope) (g : VIn) (hl : LocalsOk sc g) : ∀ v ∈ ctorVars g, v ∈ sc.locals := by
+  intro v hv
+  have hreq : ∀ v ∈ (g.fields.filter (fun f => !f.hasDefault)).map (fun f => fieldVar f.name), v ∈ sc.locals := by
+    intro v hv
+    rw [List.mem_map] at hv
+    obtain ⟨f, hf, rfl⟩ := hv
+    rw [List.mem_filter] at hf
+    exact hl.fv f hf.1 (by simpa using hf.2)
+  unfold ctorVars at hv
+  cases hca : g.catchAll with
+  | none => simp only [hca] at hv; exact hreq v hv
+  | dflt n => simp only [hca] at hv; exact hreq v hv
+  | required n idx =>
+    simp only [hca] at hv
+    rcases mem_insertAt _ _ _ _ hv with h | h
+    · rw [h]; exact hl.ca n idx hca
+    · exact hreq v h
+
+theorem tail_ok (sc : Scope) (g : VIn) (hl : LocalsOk sc g) (ho : OuterOk sc g) (asg : List S) (hi : Inv sc asg)
+    (hao : t "o" ∈ asg) (hakw : g.hasDefaults = true → t "init_kwargs" ∈ asg) :
+    (checkL2 sc asg (tailStmts g)).isSome = true := by
+  have oF : ∀ n, n ∈ [t "cls", t "fields", t "MISSING", t "re_raise", t "raise_missing_fields", t "locals", t "Exception"] →
+      ∀ x, Rd sc x n := fun n hn x => outer_rd ho x n (mem_outer_fixed g n hn)
+  have h1 : rds sc asg (ctorReads g) = true := rds_of sc asg _ (by
+    intro n hn
+    simp only [ctorReads, List.mem_append, List.mem_singleton] at hn
+    rcases hn with h | h
+    · rw [h]; exact oF _ (by simp) _
+    · cases hd : g.hasDefaults <;> simp [hd] at h
+      rw [h]; exact Rd.local hi (hakw hd))
+  have h2 : (ctorVars g).all (fun n => sc.locals.contains n) = true := by
+    rw [List.all_eq_true]
+    intro v hv
+    simpa using ctorVars_local sc g hl v hv
+  obtain ⟨a, c, _, _, _⟩ := line_ok sc [missingPart] asg hi ⟨by
+    intro m hm
+    simp only [missingPart, List.mem_cons, List.not_mem_nil, or_false] at hm
+    rcases hm with h | h | h | h | h
+    · rw [h]; exact oF _ (by simp) _
+    · rw [h]; exact oF _ (by simp) _
+    · rw [h]; exact Rd.local hi hao
+    · rw [h]; exact oF _ (by simp) _
+    · rw [h]; exact oF _ (by simp) _, by simp [missingPart], trivial⟩
+  simp only [tailStmts, checkL2, S2.check, h1, h2, Bool.and_self, if_true, checkL0, c]
+  rfl
+
+/-- **the skeleton for any class is well scoped in any scope that lists what the body binds as locals, holds the outside names the
+skeleton uses outside, and in which the value expressions read only `v1` and outside names** -/
+theorem wellScoped_in (p : Char → Bool) (sc : Scope) (g : VIn) (hl : LocalsOk sc g) (ho : OuterOk sc g) (he : ExprsOk sc g)
+    (hk : LookupsOk g) : (checkL2 sc [t "o"] (genBody p g)).isSome = true := by
+  have hi0 : Inv sc [t "o"] := fun n hn => by simp at hn; rw [hn]; exact hl.o
+  obtain ⟨a1, c1, s1, i1, k1, j1⟩ := head_ok sc g hl ho [t "o"] hi0 (by simp)
+  have o1 : t "o" ∈ a1 := s1 _ (by simp)
+  obtain ⟨a2, c2, s2, i2⟩ := block_ok p sc g hl ho he hk a1 i1 o1 j1 k1
+  obtain ⟨a3, c3, s3, i3⟩ := after_ok p sc g hl ho a2 i2 (s2 _ o1) (fun h => s2 _ (j1 h)) (fun h => s2 _ (k1 h))
+  have c4 := tail_ok sc g hl ho a3 i3 (s3 _ (s2 _ o1)) (fun h => s3 _ (s2 _ (k1 h)))
+  unfold genBody
+  simp only [checkL2_append, c1, c2, c3]
+  exact c4
+
 end DW.GenLoadV1
